@@ -127,6 +127,17 @@ func vfShape(shape int) (map[string]*vfShapeRes, []vfReqKind, []vfShapeEvent) {
 		svc["test.y"] = vfShapeModel("v", `"y"`)
 		svc["test.z"] = vfShapeModel("v", `"z"`)
 		kinds = []vfReqKind{vfSub("test.p1"), {method: "get.test.x", verb: "get", rid: "test.x"}, vfSub("test.p2"), vfUnsub("test.p1")}
+	case 5:
+		// a collection gaining a reference to a model whose own reference
+		// is still being fetched, with events on that model meanwhile
+		svc["test.c"] = &vfShapeRes{typ: 'c', col: []string{`"a"`}}
+		svc["test.m"] = vfShapeModel("k", vfRefVal("test.n"))
+		svc["test.n"] = vfShapeModel("v", `"n"`)
+		kinds = []vfReqKind{vfSub("test.c")}
+		custom := func(rid string) vfShapeEvent {
+			return vfShapeEvent{rid: rid, name: "custom", apply: func(svc map[string]*vfShapeRes) string { return `{"x":1}` }}
+		}
+		events = []vfShapeEvent{addRef("test.c", 1, "test.m"), custom("test.m"), custom("test.m")}
 	case 1:
 		// a collection gaining a reference to a resource the client also
 		// subscribes directly, the collection being left meanwhile
